@@ -139,6 +139,19 @@ def mandatory_parents(chk: Check):
                 continue
             # the descriptor object the CID is looked up in exists (its truthiness may be part of the same test)
             present = {x[1]: 1 for x in S.walk(cid) if isinstance(x, tuple) and x and x[0] == "attr" and x[2] == "attr"}
+            # (conjuncts of the same tests that do not look at the CID - "there is an embedded descriptor" - are taken as given)
+            for c, p in conds:
+                if S.contains(c, lambda y: y == cid) and c[0] == "bool" and c[1] == "and":
+                    for operand in c[2]:
+                        if not S.contains(operand, lambda y: y == cid):
+                            present[operand] = bool(p)
+            # (a descriptor that exists only under a condition: the situations looked at are those in which the CID is consulted)
+            for c, p in conds:
+                for x in S.walk(c):
+                    if isinstance(x, tuple) and x and x[0] == "ite":
+                        in_a, in_b = S.contains(x[2], lambda y: y == cid), S.contains(x[3], lambda y: y == cid)
+                        if in_a != in_b and not S.contains(x[1], lambda y: y == cid):
+                            present[x[1]] = in_a
             tab = reach_table(conds, {"cid": cid}, [{"cid": "ffffffff"}, {"cid": "12345678"}, {"cid": "FFFFFFFF"}], override=present)
             sites.append((n, t[0] == "call" and t[1] == f"{rel}::open_parent" and tab[0] is False and tab[1] is True))
     chk.decide(len(sites) == 2 and all(ok for _, ok in sites), "K-PATH", "vmdk:parent-opened-when-required", init.func,
@@ -477,6 +490,11 @@ def _opened_path_by_evaluation(chk: Check, ctx, opens, cases, want_fn, rule, tex
                 break
             want = want_fn(case, lambda c, _a=answers: _a[str(c)])
             ncase += 1
+            if got is not None and not isinstance(got, PP):
+                # the opened path did not evaluate to a path value: something in it (a hand-driven iterator, a call into code the
+                # analyser does not interpret) is outside the model - no verdict either way
+                und = f"the opened path does not evaluate to a path on the model inputs (case {tuple(map(str, case)) if isinstance(case, tuple) else case})"
+                break
             if not isinstance(got, PP) or str(got) != str(want):
                 bad.append(f"case {tuple(map(str, case)) if isinstance(case, tuple) else case}, existing {sorted(k for k, v in answers.items() if v)}: "
                            f"opens {got}, specified {want}" + (f" (asks about {foreign[0]}, which the specification never tests)" if foreign else ""))
